@@ -22,8 +22,11 @@ def leaf_invariants(chk, n, k, c):
              ('create_comparator_var_state', [G_, mkref('x')]), ('project_out_hctl_var', [G_, R(phi), mkref('x')]), ('project_out_bn_vars', [G_, R(phi)]),
              ('compute_steady_states', [G_])]
     if k >= 2: calls += [('substitute_hctl_var', [G_, R(phi), mkref('x'), mkref('xx')]), ('create_comparator_two_vars', [G_, mkref('x'), mkref('xx')]), ('eval_hctl_var', [G_, mkref('xx')])]
+    from ..mirsym.interp import Unsupported
     for name, args in calls:
-        r = I.run(I.fn(name), args)
+        try: r = I.run(I.fn(name), args)
+        except Unsupported as e:
+            chk.obligation(f'C03/E-MIR invariant: {name} [unsupported: {str(e)[:100]}]', 'E-MIR/fork', 'inconclusive'); continue
         ok, m = ctx.valid((r & ~M.unit) == 0); chk.queries += 1
         tok, _ = ctx.valid((r & ~phi) == 0); chk.twin(not tok)
         full = f'C03/E-MIR invariant: {name} keeps results inside the unit set [n={n} k={k} c={c}]'
@@ -55,12 +58,19 @@ def run(chk):
     leaf_invariants(chk, 2, 1, 1)
     leaf_invariants(chk, 2, 2, 1)
     c01.kernel_part(chk, [(2, 1)] + ([(3, 1)] if thorough else []))
-    fs = c01.dispatch_formulas() + [f for f in c02.family() if not (S.labels(f)[0] | S.labels(f)[1]) & {'empty', 'full'}]
+    from . import c04
+    scope = c04.scope_family()
+    fs = c01.dispatch_formulas() + [f for f in c02.family() if not (S.labels(f)[0] | S.labels(f)[1]) & {'empty', 'full'}] + [f for f in scope if S.quant_depth(f) <= 2]
     tasks = []
     for f in fs[::1 if thorough else 2]:
         k = S.quant_depth(f)
-        if k <= 1 and (thorough or not c02.heavy(f)): tasks.append({'n': 2, 'k': k, 'c': 1, 'entry': 'multi_ext_dirty', 'phis': [f], 'check_unit': True, 'timeout_ms': 600000 if thorough else 60000})
+        if (k <= 1 or f in scope) and (thorough or not c02.heavy(f) or f in scope): tasks.append({'n': 2, 'k': k, 'c': 1, 'entry': 'multi_ext_dirty', 'phis': [f], 'check_unit': True, 'timeout_ms': 600000 if thorough else 60000} if f not in scope else {'n': 2, 'k': k, 'c': 0, 'entry': 'multi_ext_dirty', 'phis': [f], 'check_unit': True, 'timeout_ms': 600000 if thorough else 60000})
     ET.run_tasks(chk, 'C03', tasks, signature='outside-unit')
-    core = G.core_plain(['v0', 'v1']) + c02.family()
+    P0, P1 = ('prop', 'v0'), ('prop', 'v1')
+    taut = [('true',), ('EF', ('true',)), ('AG', ('or', P0, ('not', P0))), ('iff', P0, P1), ('EF', ('iff', P0, P1)), ('or', ('iff', P0, P1), P0), ('exists', 'x', None, ('EX', ('or', ('var', 'x'), ('iff', P0, P1)))),
+            ('xor', P0, P1), ('imp', P0, P1), ('forall', 'x', None, ('or', ('EF', ('var', 'x')), ('not', ('EF', ('var', 'x'))))), ('not', ('false',)), ('AX', ('true',)), ('EG', ('true',)), ('AW', ('true',), P0)]
+    UC.run_family(chk, 'C03', [(['C2', 'M2'], taut)], entries=('ext',), check_unit=True)
+    UC.run_family(chk, 'C03', [(['C2', 'M2'], taut)], entries=('ext_dirty',), check_unit=True)
+    core = G.core_plain(['v0', 'v1']) + c02.family() + scope
     rnd = [G.random_formula(chk.rng, 3, ['v0', 'v1'], wild=('w',), doms=('d',)) for _ in range(100 if thorough else 15)]
     UC.run_family(chk, 'C03', [(['C2', 'M2'], core + rnd)], entries=('ext_dirty', 'ext'), check_unit=True)
